@@ -47,6 +47,9 @@ def apply(op, root, out):
             os.rename(O("in_" + op[1]), R(op[1]))
         elif k == "rm-moved-out":
             shutil.rmtree(O(op[1]))
+        elif k == "mkabs":
+            # a descendant whose path spells the directory's own absolute path again (a mirror / backup tree)
+            os.makedirs(R(op[1]) + R(op[1]))
         elif k == "touch":
             open(R(op[1] + "/f"), "w").close()
         elif k == "burst":
@@ -157,6 +160,7 @@ NAMED = {
     "move out, re-create, remove moved, rename, nested create": [("mkdir", "a"), ("moveout", "a"), ("mkdir", "a"), ("rm-moved-out", "a"), ("rename", "a", "b"), ("mkdir2", "b", "a")],
     "rename onto an existing empty directory, rename again": [("mkdir", "a"), ("mkdir", "b"), ("rename", "a", "b"), ("rename", "b", "a2"), ("mkdir2", "a2", "b")],
     "sibling whose name extends the renamed directory": [("mkdir", "a"), ("mkdir", "a2"), ("mkdir2", "a2", "b"), ("rename", "a", "b"), ("rename", "a2", "a")],
+    "descendant path repeats the renamed directory's own path": [("mkdir", "a"), ("mkabs", "a"), ("rename", "a", "b")],
     "nested rename chain": [("mkdir", "a"), ("mkdir2", "a", "b"), ("rename", "a", "b"), ("rename", "b", "a"), ("mkdir2", "a", "a")],
 }
 
@@ -177,7 +181,7 @@ def main():
         hs.insert(0, tuple(ops))
     for ops in hs:
         for recursive in ((True, False) if len(ops) <= 3 and hash(ops) % 5 == 0 else (True,)):
-            bat.case(hash((ops, recursive)))
+            bat.case(hash((ops, recursive)), desc={"ops": [list(o) for o in ops], "recursive": recursive})
             pr, kn = run_history(list(ops), recursive)
             for m in kn:
                 if "known" not in known_seen:
